@@ -187,7 +187,28 @@ func runC20(seed uint64, n int, out, stats string, _ []string) {
 				got, gotTotal := nd.App.VerifPowers()
 				want := map[types.Pubkey]*big.Int{}
 				wantTotal := big.NewInt(0)
-				for _, v := range nd.App.VerifStateDeliver().Validators.GetValidators() {
+				vals := nd.App.VerifStateDeliver().Validators.GetValidators()
+				// model 23 (coq/Model/PowerTable.v): the validators of the state with their commit-info status -> table size, total
+				in23 := L(Z(int64(len(vals))))
+				for _, v := range vals {
+					idx := -1
+					for k, x := range nd.Vals {
+						if x.Pub == v.PubKey {
+							idx = k
+						}
+					}
+					status := int64(1)
+					if idx < 0 || opts.Omit[idx] {
+						status = 0
+					} else if opts.Absent[idx] {
+						status = 2
+					}
+					in23 = append(in23, Z(int64(idx)), v.GetTotalBipStake(), Z(status), b2z(v.IsToDrop()))
+				}
+				c.Begin(23)
+				c.Op(in23, L(Z(int64(len(got))), cp(gotTotal)))
+				c.End(len(opts.Omit)+len(opts.Absent) > 0, "power-table")
+				for _, v := range vals {
 					idx := -1
 					for k, x := range nd.Vals {
 						if x.Pub == v.PubKey {
